@@ -238,6 +238,12 @@ FACTORIES = [
     ('sorted-mixed-keys-nested', lambda: WithSettings([{1: 'a', 'one': 'b', (1,): 'c'}, {'z': {None: 1, 'n': 2, 0: 3}}], sort_dict_keys=True)),
     ('sorted-comparable-keys', lambda: WithSettings({'b': 1, 'a': {'d': 1, 'c': 2}, 'c': 0}, sort_dict_keys=True)),
     ('narrow-truncated', lambda: WithSettings({'k': list(range(8)), 'j': ('x' * 30, 'y')}, width=20, max_seq_len=3, depth=2)),
+    # comment texts with whitespace-only lines (an odd and an even number of them), and comments that must be wrapped
+    ('trailing-comment-blank-line', lambda: P.trailing_comment([1, 2], '\n    text\n    ')),
+    ('trailing-comment-blank-lines', lambda: P.trailing_comment({'a': 1}, ' \n\t\nwords here\n \n  ')),
+    ('dict-key-comment-blank', lambda: {P.comment('k', ' \n x'): 1, 'j': P.comment(2, '\n')}),
+    ('comment-wrapped', lambda: WithSettings([P.comment(1, 'the first element of this list is one'), 2], width=30)),
+    ('comment-wrapped-dict', lambda: WithSettings({'k': P.comment([1, 2], 'a comment of several words that has to wrap here')}, width=24)),
     ('shape-plain', lambda: Shape('circle')),
     ('label-only-second-predicate', lambda: Label('t1')),
     ('shape-tagged-both-predicates', lambda: Shape('square', tag='t2')),
